@@ -554,6 +554,10 @@ def run(ctx):
     leaves = [l for l in T.phi_leaves(prim)] if prim is not None else []
     from_builder = [l for l in leaves if l[0] == "s" and l[1][0] == "f" and "_build_aspire_from_file" in l[1][1]]
     okp = bool(from_builder)
+    # primed exactly when the file held a checkpoint: on the path where the bytes are not None the attribute *is* those bytes
+    if okp:
+        bt = from_builder[0]
+        okp = T.select(prim, ("is", bt, T.NONE), False) == bt
     # the builder reads the bytes at the configured group / dataset
     if okp and builder is not None:
         idx = int(T.const_value(from_builder[0][2]))
@@ -709,6 +713,7 @@ MUTANTS = [
       "maybe_checkpoint()\n                samples = self.mutate(samples, beta)\n                if store_sample_history:\n                    self.history.sample_history.append(samples)", "C11.cut"),
     M("resumed run re-records the restored population", _B, "if store_sample_history and not resumed:", "if store_sample_history:", "C11.reentry"),
     M("bytes source unsupported", _SB, "elif isinstance(source, bytes):\n            state = pickle.loads(source)\n", "", "C11.src"),
+    M("instance primed only when the file has no checkpoint", _A, "if checkpoint_bytes is not None:\n            aspire._resume_from_default = checkpoint_bytes", "if checkpoint_bytes is None:\n            aspire._resume_from_default = checkpoint_bytes", "C11.prime"),
     M("primed checkpoint overrides the caller's", _A, "if \"resume_from\" not in kwargs and hasattr(", "if \"resume_from\" in kwargs and hasattr(", "C11.prime"),
     M("primed size overrides an explicit size", _A, "if hasattr(self, \"_resume_n_samples\") and n_samples == 1000:", "if hasattr(self, \"_resume_n_samples\") or n_samples == 1000:", "C11.prime"),
     M("primed size ignored", _A, "if hasattr(self, \"_resume_n_samples\") and n_samples == 1000:", "if hasattr(self, \"_resume_n_samples\") and n_samples != 1000:", "C11.prime"),
